@@ -128,3 +128,78 @@ fn test_index_seek_invalid_value_expression_raises_runtime_type_error() {
         "expected InvalidArgumentValue, got: {err}"
     );
 }
+
+fn run_write(db: &Db, cypher: &str) {
+    let snapshot = db.snapshot();
+    let mut txn = db.begin_write();
+    nervusdb::query::prepare(cypher)
+        .unwrap()
+        .execute_write(&snapshot, &mut txn, &Default::default())
+        .unwrap();
+    txn.commit().unwrap();
+}
+
+fn count_rows(db: &Db, cypher: &str) -> usize {
+    let snapshot = db.snapshot();
+    nervusdb::query::prepare(cypher)
+        .unwrap()
+        .execute_streaming(&snapshot, &Default::default())
+        .collect::<Result<Vec<_>, _>>()
+        .unwrap()
+        .len()
+}
+
+#[test]
+fn test_create_index_backfills_existing_nodes() {
+    let dir = tempfile::tempdir().unwrap();
+    let db = Db::open(dir.path().join("t107_backfill.ndb")).unwrap();
+    run_write(&db, "CREATE (:Person {age: 30})");
+    run_write(&db, "CREATE (:Person {age: 30})");
+    db.create_index("Person", "age").unwrap();
+    run_write(&db, "CREATE (:Person {age: 30})");
+
+    assert_eq!(
+        count_rows(&db, "MATCH (n:Person) WHERE n.age = 30 RETURN n"),
+        3
+    );
+    let snapshot = db.snapshot();
+    assert_eq!(
+        snapshot
+            .lookup_index("Person", "age", &PropertyValue::Int(30))
+            .map(|ids| ids.len()),
+        Some(3)
+    );
+}
+
+#[test]
+fn test_create_index_is_refused_while_a_write_transaction_is_open() {
+    let dir = tempfile::tempdir().unwrap();
+    let db = Db::open(dir.path().join("t107_writer.ndb")).unwrap();
+    let txn = db.begin_write();
+    assert!(db.create_index("Person", "age").is_err());
+    drop(txn);
+    db.create_index("Person", "age").unwrap();
+}
+
+#[test]
+fn test_index_seek_finds_the_same_number_in_the_other_numeric_type() {
+    let dir = tempfile::tempdir().unwrap();
+    let db = Db::open(dir.path().join("t107_numeric.ndb")).unwrap();
+    db.create_index("Person", "age").unwrap();
+    run_write(&db, "CREATE (:Person {age: 30})");
+    run_write(&db, "CREATE (:Person {age: 30.0})");
+    run_write(&db, "CREATE (:Person {age: 30.5})");
+
+    assert_eq!(
+        count_rows(&db, "MATCH (n:Person) WHERE n.age = 30 RETURN n"),
+        2
+    );
+    assert_eq!(
+        count_rows(&db, "MATCH (n:Person) WHERE n.age = 30.0 RETURN n"),
+        2
+    );
+    assert_eq!(
+        count_rows(&db, "MATCH (n:Person) WHERE n.age = 30.5 RETURN n"),
+        1
+    );
+}
